@@ -4,7 +4,7 @@ deliveries in /tmp/mutants and the lab result files, and prints the kill matrix.
 import json, os, re, shutil, sys
 import sys
 WAVE=sys.argv[1] if len(sys.argv)>1 else '1'
-SRC={'1':'/tmp/mutants','2':'/tmp/mutants2','3':'/tmp/mutants3','4':'/tmp/mutants4','5':'/tmp/mutants5','6':'/tmp/mutants6','7':'/tmp/mutants7','8':'/tmp/mutants8'}[WAVE]
+SRC={'1':'/tmp/mutants','2':'/tmp/mutants2','3':'/tmp/mutants3','4':'/tmp/mutants4','5':'/tmp/mutants5','6':'/tmp/mutants6','7':'/tmp/mutants7','8':'/tmp/mutants8','9':'/tmp/mutants9'}[WAVE]
 RES={'1':['/verif/tools/mutants/RESULTS_seeded_round1.txt','/verif/tools/mutants/RESULTS_round2.txt'],
      '2':['/verif/tools/mutants/RESULTS_wave2_round1.txt','/verif/tools/mutants/RESULTS_wave2_round2.txt'],
      '3':['/verif/tools/mutants/RESULTS_wave3_round1.txt','/verif/tools/mutants/RESULTS_wave3_round2.txt'],
@@ -12,8 +12,9 @@ RES={'1':['/verif/tools/mutants/RESULTS_seeded_round1.txt','/verif/tools/mutants
      '5':['/verif/tools/mutants/RESULTS_wave5_round1.txt','/verif/tools/mutants/RESULTS_wave5_round2.txt'],
      '6':['/verif/tools/mutants/RESULTS_wave6_round1.txt','/verif/tools/mutants/RESULTS_wave6_round2.txt'],
      '7':['/verif/tools/mutants/RESULTS_wave7_round1.txt','/verif/tools/mutants/RESULTS_wave7_round2.txt'],
-     '8':['/verif/tools/mutants/RESULTS_wave8_round1.txt','/verif/tools/mutants/RESULTS_wave8_round2.txt']}[WAVE]
-TAG={'1':'','2':'2','3':'3','4':'4','5':'5','6':'6','7':'7','8':'8'}[WAVE]
+     '8':['/verif/tools/mutants/RESULTS_wave8_round1.txt','/verif/tools/mutants/RESULTS_wave8_round2.txt'],
+     '9':['/verif/tools/mutants/RESULTS_wave9_round1.txt','/verif/tools/mutants/RESULTS_wave9_round2.txt']}[WAVE]
+TAG={'1':'','2':'2','3':'3','4':'4','5':'5','6':'6','7':'7','8':'8','9':'9'}[WAVE]
 def parse(path):
     out={}
     if not os.path.exists(path): return out
